@@ -1133,9 +1133,19 @@ def load_corpus(prop):
     return out
 
 
+PY_ND = 0.0       # n-d NumpyArray encodings of regular levels are exercised at the C++ level (awkdrv); the Python layer mostly
+#                   converts them with toRegularArray() first, and where it does not (ak.unflatten: fixed 81cf1c4;
+#                   ak.concatenate(axis=1) with an option over an n-d array: open finding) the corpus keeps the cases
+
+
 def _with_corpus(prop):
     def f(rng, tier):
-        return load_corpus(prop) + GENERATORS[prop](rng, tier)
+        old = G.DEFAULT_ND
+        G.DEFAULT_ND = PY_ND
+        try:
+            return load_corpus(prop) + GENERATORS[prop](rng, tier)
+        finally:
+            G.DEFAULT_ND = old
     f.__name__ = 'cases_' + prop
     return f
 
@@ -1186,6 +1196,8 @@ def signature(prop, c, impl, verdict):
         return 'broadcast-all-same-offsets-empty-indexerror'
     if c.op == 'concatenate' and tg.get('has_str'):
         return 'mergeable-parameters-of-wrapper-node'
+    if c.op == 'concatenate' and any(has_nd(l) and has_node(l, ('ixo', 'bym', 'bim', 'unm')) for l in lays) and impl.startswith('ok'):
+        return 'concatenate-axis1-option-over-nd-numpy'
     if any(has_reg0(l) for l in lays):
         if impl.startswith('err') and 'RegularArray of size' in msg:
             return 'regular-size1-to-size0'
